@@ -34,7 +34,7 @@ from annet import implicit as rb_implicit  # noqa: E402
 # canonical hardware strings per rulebook text (DESIGN 9); several for texts with %if hw branches
 HW = {
     "huawei": ["Huawei CE6870", "Huawei NE40E", "Huawei S5300", "Huawei Quidway S2326"],
-    "optixtrans": ["Huawei DC"],
+    "optixtrans": ["Huawei OptiXtrans DC908"],
     "cisco": ["Cisco Catalyst", "Cisco 2960"],
     "nexus": ["Cisco Nexus"],
     "iosxr": ["Cisco ASR", "Cisco XR"],
